@@ -42,10 +42,10 @@ def Call.op : Call → Op
   | .write mem len => .printn mem len
   | .flush => .flush
 
-/-- `concat written`: what the writes ask for (`len == 0` meaning `strlen`, as in the code). -/
+/-- `concat written`: what the writes ask for (a zero-length `printn` asks for nothing, as in the code). -/
 def concatWritten : List Call → Bytes
   | [] => []
-  | .write mem len :: r => effective mem len ++ concatWritten r
+  | .write mem len :: r => printnBytes mem len ++ concatWritten r
   | .flush :: r => concatWritten r
 
 /-- A terminal with buffer size `n`, an output method, nothing delivered and nothing pending. -/
@@ -186,12 +186,15 @@ example : ∃ s' r', run init (buildOps 3 true false true ++ [.printn [1, 2, 3, 
     run init (buildOps 0 true false true ++ [.printn [1, 2, 3, 4, 5, 0] 5]) = .ok r' ∧
     s'.buf = [4, 5] ∧ stream s'.out ++ s'.buf = stream r'.out := ⟨_, _, rfl, rfl, by decide, by decide⟩
 
-/-- The `len == 0 ⇒ strlen` quirk of `write_str` is part of *what is requested* and therefore the same with
-    and without a buffer: `tickit_term_printn(tt, str, 0)` asks for the whole C string at `str`.  It does not
-    touch C11 (which compares with the unbuffered stream); it is recorded here because it means a zero-length
-    print is not a no-op. -/
-theorem len0_means_strlen (m : Mode) (mem : Bytes) : requested m (.printn mem 0) = cstr mem := by
-  simp [requested, effective]
+/-- The `len == 0 ⇒ strlen` convention of `write_str` is still there (the xterm driver uses it for its own
+    literals), but since the fix 6b09beb `tickit_term_printn(tt, str, 0)` no longer reaches it: a zero-length
+    print requests nothing, whatever is at `str` (`printn_zero_len_returns` is read from the source). -/
+theorem printn_len0_prints_nothing (m : Mode) (mem : Bytes) (st : State) :
+    requested m (.printn mem 0) = [] ∧ step st (.printn mem 0) = .ok st := by
+  simp [requested, printnBytes, step, termPrintn, printn_zero_len_returns]
+
+example : effective [97, 98, 0] 0 = [97, 98] ∧ printnBytes [97, 98, 0] 0 = [] ∧ printnBytes [97, 98, 0] 2 = [97, 98] := by
+  decide
 
 /-! ### 3. no delivered chunk is larger than the buffer; the fill level stays below it -/
 
@@ -262,18 +265,16 @@ example : ∃ a b, step { (fresh 16 true false { started := true, altscreen := t
 example : ∃ st', step { init with bufLen := 5 } .setFunc = .ok st' ∧ st'.buf = [] ∧ stream st'.out = startBytes ∧
     st'.out.length = 15 := ⟨_, rfl, by decide, by decide, by decide⟩
 
-/-- `tickit_term_pause` writes the driver's teardown bytes but does *not* flush (`term_pause_flushes` and
-    `driver_teardown_flushes` are read from the source; both are `false` in the tree as found): with a buffer,
-    the mode-reset sequences can still be pending when the caller stops the process (`examples/demo-pen.c`
-    does exactly `tickit_term_pause(term); raise(SIGSTOP);` on a 4096-byte buffer).  C11 claims nothing about
-    pause — no flush was asked for — so this is not a violation of C11; it is recorded as a finding of the
-    reading (it belongs to C12).  The statement is conditional on the extracted flags, so it stays provable
-    (vacuously) once a flush is added there. -/
-theorem pause_leaves_pending (hsrc : (term_pause_flushes || driver_teardown_flushes) = false) :
-    ∃ st st', WF st ∧ Attached st ∧ step st .pause = .ok st' ∧ st'.buf ≠ [] := by
-  first
-  | exact ⟨fresh 64 true false { started := true }, _, by unfold WF fresh; decide, Or.inl rfl, rfl, by decide⟩
-  | exact absurd hsrc (by decide)
+/-- `tickit_term_pause` ends with a flush (`term_pause_flushes` is read from the source; the fix 41ef6f9 added
+    it — before, the mode-reset sequences stayed in the buffer while the caller stopped the process). -/
+theorem pause_drains (st st' : State) (h : step st .pause = .ok st') : st'.buf = [] := by
+  simp only [step, termPause] at h
+  obtain ⟨s1, _, h⟩ := bind_eq_ok.1 h
+  injection h with h; subst h
+  exact condFlush_buf
+
+example : ∃ st', step { (fresh 64 true false { started := true, cursorvis := false }) with buf := [1, 2] } .pause = .ok st' ∧
+    st'.buf = [] ∧ stream st'.out = [1, 2] ++ teardown_cursorvis ++ teardown_pen_reset := ⟨_, rfl, by decide, by decide⟩
 
 example : ∃ st', step { (fresh 8 true false {}) with buf := [1, 2, 3] } .flush = .ok st' ∧
     st'.out = [.data .func [1, 2, 3]] ∧ st'.buf = [] := ⟨_, rfl, rfl, rfl⟩
